@@ -307,7 +307,9 @@ impl AddressRange {
     }
 
     pub(crate) fn limited_count(self, limit: u16) -> Result<Self, InvalidRange> {
-        if self.count > limit {
+        // the fields are public: a range that was not built by `try_from` may be empty or overflow
+        let this = Self::try_from(self.start, self.count)?;
+        if this.count > limit {
             return Err(InvalidRange::CountTooLargeForType(self.count, limit));
         }
         Ok(self)
